@@ -1,5 +1,13 @@
 """Visiting order of the global-uuid bookkeeping (containers.py, campaigns.py, triggers.py,
-actions.py, routers.py): the sequence of record/assign/check calls of each hook, as data."""
+actions.py, routers.py): the sequence of record/assign/check calls of each hook, as data.
+
+HOW IT READS (DESIGN §2.5a): SOURCE STRUCTURE — which bookkeeping calls a hook makes, on what, in which
+order is a fact about the code's control flow that only the source tells.  The hooks are looked up by
+their PUBLIC names (`update_global_uuids`, `validate`, `record_global_uuids`, `assign_global_uuids`: the
+protocol every model class implements); local variable names do not matter (a loop variable stands for
+the collection it ranges over), and a call of a PRIVATE helper of the same class (`self._x(…)`) is
+replaced by the helper's own sequence, so extracting part of a hook into a helper changes nothing.
+ORDER EXACT: record-before-assign and the visiting order are what the model is about."""
 import ast
 
 from ..extract_tables import _find_class, _find_func, _parse
@@ -22,8 +30,12 @@ def _base(node, loops):
     return ast.unparse(node)
 
 
-def call_sequence(func: ast.FunctionDef) -> list[str]:
+def call_sequence(func: ast.FunctionDef, cls: ast.ClassDef | None = None, _depth: int = 0) -> list[str]:
     out = []
+    helpers = {}
+    if cls is not None and _depth < 4:
+        helpers = {m.name: m for m in cls.body if isinstance(m, ast.FunctionDef) and m.name.startswith("_")
+                   and not m.name.startswith("__") and m.name not in CALLS and m is not func}
 
     def visit(stmts, loops):
         for s in stmts:
@@ -40,9 +52,13 @@ def call_sequence(func: ast.FunctionDef) -> list[str]:
                 scan(s, loops)
 
     def scan(node, loops):
-        calls = [n for n in ast.walk(node) if isinstance(n, ast.Call) and isinstance(n.func, ast.Attribute) and n.func.attr in CALLS]
+        calls = [n for n in ast.walk(node) if isinstance(n, ast.Call) and isinstance(n.func, ast.Attribute)
+                 and (n.func.attr in CALLS or (n.func.attr in helpers and isinstance(n.func.value, ast.Name) and n.func.value.id == "self"))]
         calls.sort(key=lambda n: (n.lineno, n.col_offset))
         for n in calls:
+            if n.func.attr in helpers:      # a private helper of the same class: its own sequence, in place
+                out.extend(call_sequence(helpers[n.func.attr], cls, _depth + 1))
+                continue
             kws = "".join(f" {k.arg}={ast.unparse(k.value)}" for k in n.keywords)
             args = ""
             if n.func.attr in ("record_group_uuid", "record_flow_uuid", "get_group_uuid", "get_flow_uuid", "contains_flow"):
@@ -58,6 +74,10 @@ def call_sequence(func: ast.FunctionDef) -> list[str]:
     return out
 
 
+def _seq(cls: ast.ClassDef, name: str) -> list[str]:
+    return call_sequence(_find_func(cls, name), cls)
+
+
 def _lean_strings(xs) -> str:
     return "[" + ", ".join('"' + x.replace("\\", "\\\\").replace('"', '\\"') + '"' for x in xs) + "]"
 
@@ -71,20 +91,20 @@ def tables() -> str:
     nodes = _parse("rapidpro/models/nodes.py")
     rc = _find_class(cont, "RapidProContainer")
     items = [
-        ("uuidUpdateSteps", call_sequence(_find_func(rc, "update_global_uuids"))),
-        ("uuidValidateSteps", call_sequence(_find_func(rc, "validate"))),
-        ("uuidFlowRecord", call_sequence(_find_func(_find_class(cont, "FlowContainer"), "record_global_uuids"))),
-        ("uuidNodeRecord", call_sequence(_find_func(_find_class(nodes, "BaseNode"), "record_global_uuids"))
-         + ["|"] + call_sequence(_find_func(_find_class(nodes, "RouterNode"), "record_global_uuids"))),
-        ("uuidCampaignRecord", call_sequence(_find_func(_find_class(camp, "Campaign"), "record_global_uuids"))),
-        ("uuidCampaignAssign", call_sequence(_find_func(_find_class(camp, "Campaign"), "assign_global_uuids"))),
-        ("uuidEventRecord", call_sequence(_find_func(_find_class(camp, "CampaignEvent"), "record_global_uuids"))),
-        ("uuidTriggerRecord", call_sequence(_find_func(_find_class(trig, "Trigger"), "record_global_uuids"))),
-        ("uuidTriggerAssign", call_sequence(_find_func(_find_class(trig, "Trigger"), "assign_global_uuids"))),
-        ("uuidGroupActionRecord", call_sequence(_find_func(_find_class(act, "GenericGroupAction"), "record_global_uuids"))),
-        ("uuidEnterFlowRecord", call_sequence(_find_func(_find_class(act, "EnterFlowAction"), "record_global_uuids"))),
-        ("uuidSwitchRecord", call_sequence(_find_func(_find_class(rout, "SwitchRouter"), "record_global_uuids"))),
-        ("uuidSwitchAssign", call_sequence(_find_func(_find_class(rout, "SwitchRouter"), "assign_global_uuids"))),
+        ("uuidUpdateSteps", _seq(rc, "update_global_uuids")),
+        ("uuidValidateSteps", _seq(rc, "validate")),
+        ("uuidFlowRecord", _seq(_find_class(cont, "FlowContainer"), "record_global_uuids")),
+        ("uuidNodeRecord", _seq(_find_class(nodes, "BaseNode"), "record_global_uuids")
+         + ["|"] + _seq(_find_class(nodes, "RouterNode"), "record_global_uuids")),
+        ("uuidCampaignRecord", _seq(_find_class(camp, "Campaign"), "record_global_uuids")),
+        ("uuidCampaignAssign", _seq(_find_class(camp, "Campaign"), "assign_global_uuids")),
+        ("uuidEventRecord", _seq(_find_class(camp, "CampaignEvent"), "record_global_uuids")),
+        ("uuidTriggerRecord", _seq(_find_class(trig, "Trigger"), "record_global_uuids")),
+        ("uuidTriggerAssign", _seq(_find_class(trig, "Trigger"), "assign_global_uuids")),
+        ("uuidGroupActionRecord", _seq(_find_class(act, "GenericGroupAction"), "record_global_uuids")),
+        ("uuidEnterFlowRecord", _seq(_find_class(act, "EnterFlowAction"), "record_global_uuids")),
+        ("uuidSwitchRecord", _seq(_find_class(rout, "SwitchRouter"), "record_global_uuids")),
+        ("uuidSwitchAssign", _seq(_find_class(rout, "SwitchRouter"), "assign_global_uuids")),
     ]
     # classes of actions.py / routers.py whose record hook does something (body is not `pass`)
     hooked = []
